@@ -363,7 +363,12 @@ def compare(program, live_fi, ref_fi, effects=default_effects, **kw):
         def inl(f):
             nm = getattr(f, "name", "")
             from .absint import has_semantic_decorator
-            return nm not in idents and not nm.startswith("__") \
+            # (a base-class constructor reached through super() or an
+            # explicit Base.__init__(self, ...) is such a function too)
+            return (nm not in idents or nm == "__init__") \
+                and (not nm.startswith("__") or (
+                    nm == "__init__" and f is not live_fi
+                    and getattr(f, "cls", None) is not None)) \
                 and not has_semantic_decorator(f) \
                 and sum(1 for _ in ast.walk(f.node)) < 400
         kw2 = dict(kw, live_kw=dict(kw["live_kw"], inline=inl))
@@ -412,7 +417,29 @@ def vanished_names(model, live_fi, ref_fi):
                 idents.add(n.id)
             elif isinstance(n, (ast.FunctionDef, ast.ClassDef)):
                 idents.add(n.name)
-    return sorted(n for n in names if n not in idents)
+    gone = {n for n in names if n not in idents}
+    # a *method* the reference calls on self that the live class hierarchy
+    # no longer defines (turned into a module-level function, say): the name
+    # still occurs in the module, the anchor does not
+    called = set()
+    for n in ast.walk(ref_fi.node):
+        if isinstance(n, ast.Call) and isinstance(n.func, ast.Attribute) \
+                and isinstance(n.func.value, ast.Name) \
+                and n.func.value.id == selfn:
+            called.add(n.func.attr)
+    cq = live_fi.cls.qualname
+    rq = getattr(ref_fi.cls, "qualname", None)
+    for nm in called:
+        if model.lookup_method(cq, nm) is None and (
+                rq is None or model.lookup_method(rq, nm) is None):
+            fields = set()
+            for k in model.mro(cq):
+                c = model.classes.get(k)
+                if c is not None:
+                    fields |= set(c.fields)
+            if nm not in fields:
+                gone.add(nm)
+    return sorted(gone)
 
 
 def _compare(program, live_fi, ref_fi, effects=default_effects,
